@@ -939,6 +939,66 @@ def twin_trigger(trace, upto, c=None):
     return False
 
 
+def sibling_twins(trace, upto):
+    """Trigger class of the value-equal SIBLING blocks defect (same root cause as twin_trigger: blocks compare by value):
+    two blocks next to each other in one block, both without a relation of their own and with equal repetition terms, were
+    listed through an enclosing circuit (reading the listing hands both the same relation object, after which they are equal
+    keys in the copy lookup -- and so are their copies, whose relations are copies of that one object), and afterwards a
+    structure containing them was copied (nested, copied or unrolled).  Returns the set of such twin blocks: the ones listed,
+    plus their images under every later copy."""
+    comps, hot, out = {}, set(), set()
+
+    def inside(i, x):
+        seen = 0
+        while i and seen < 1000:
+            if i == x:
+                return True
+            i = comps.get(i, [None, None, ''])[2]
+            seen += 1
+        return False
+    for k, e in enumerate(trace[:upto]):
+        ev = e['ev']
+        if ev == 'NewCircuit':
+            comps[e['c']] = [e['rep'], e['link']['k'] != 'none', '']
+        elif ev in ('AddSub', 'CopyCirc', 'Adopt'):
+            for i, r in (e.get('recs') or {}).items():
+                if r.get('t') == 'comp':
+                    home = (e.get('tree') or {}).get(i, {}).get('home', '')
+                    comps[i] = [r['rep'], (e.get('links') or {}).get(i, {'k': 'none'})['k'] != 'none', home]
+            if ev == 'AddSub' and e['id'] in comps:
+                comps[e['id']][2] = e['c']
+                comps[e['id']][1] = e['after']['k'] != 'none'
+        if ev == 'Obs' and not e.get('final'):
+            x = e['c']
+            for i, v in comps.items():
+                for j, w in comps.items():
+                    if i != j and v[2] and v[2] == w[2] and not v[1] and not w[1] and v[0] == w[0] and inside(v[2], x):
+                        hot.add(i)
+        if ev == 'Apply' or (ev in ('AddSub', 'CopyCirc') and e.get('s')):
+            src = e['c'] if ev == 'Apply' else e['s']
+            copied = set(i for i in hot if inside(i, src))
+            if copied:
+                out |= copied
+                for pair in (e.get('cmap') or []):
+                    if pair[1] in copied:
+                        hot.add(pair[0])
+                        out.add(pair[0])
+                for n in (e.get('new') or []):
+                    if n.get('origin') in copied or n.get('from') in copied:
+                        hot.add(n['id'])
+                        out.add(n['id'])
+        if ev == 'Apply':
+            tree = e.get('tree') or {}
+            for n in (e.get('new') or []):
+                if tree.get(n['id'], {}).get('t') == 'comp':
+                    o = comps.get(n['origin'], [['fixed', 1], False, ''])
+                    comps[n['id']] = [['fixed', 1], o[1], tree[n['id']]['home']]
+            for i in tree:
+                if i in comps:
+                    comps[i][0] = ['fixed', 1]
+    return out
+
+
 def dangling_group_after_flatten(trace, upto):
     """Trigger class of finding S22: flattening an unrolled circuit dissolved a block that is a member of a group relation
     ("after the latest of these") -- the member is left dangling (it is not in the flattened circuit any more) -- and afterwards
